@@ -167,6 +167,12 @@ def queries(ci, objs, forest, where, arch, quick):
                                          % (where, cname, a, types, rec, type(exc).__name__, exc))
                             return fails
                         call = "%s: %s.get_variants(arch=%r, types=%r, recursive=%r)" % (where, cname, a, types, rec)
+                        try:               # asking again gives the same answer (no state carried between calls)
+                            res2 = cont.get_variants(arch=a, types=types or None, recursive=rec)
+                            if [id(v) for v in res2] != [id(v) for v in res]:
+                                fails.append("%s answers differently when asked twice: %s then %s" % (call, [v.uid for v in res], [v.uid for v in res2]))
+                        except Exception as exc:
+                            fails.append("%s raised %s when asked a second time" % (call, type(exc).__name__))
                         if len(set(id(v) for v in res)) != len(res):
                             fails.append("%s returns a variant twice: %s" % (call, [v.uid for v in res]))
                         rest = [v for v in res if not (withself and v is cont)]
@@ -218,6 +224,9 @@ def eval_state(case):
         text = ci.dumps()
     except Exception as exc:
         return ["forest %s accepted by add cannot be written: %s: %s" % (_short(case["hist"]), type(exc).__name__, exc)]
+    fails = queries(ci, objs, forest, "forest %s after it was written" % _short(case["hist"]), arch, True)
+    if fails:
+        return fails
     from productmd.composeinfo import ComposeInfo
     ci2 = ComposeInfo()
     try:
